@@ -146,7 +146,23 @@ def make_models(scenario):
 
     def close_curve(a):
         return Stored(a.geom, closed=True) if isinstance(a, Stored) else a
-    return dict(geo=geo, affinity=affinity, np=NPP, close_curve=close_curve, explain_validity=lambda g: "invalid"), aff_calls
+
+    class PathStub:
+        """matplotlib.path.Path: only which vertex array it was built from is modelled"""
+        def __init__(self, vertices, closed=False):
+            self.vertices, self.closed = vertices, closed
+
+        def contains_points(self, pts, radius=0.0):
+            return Membership(self, pts, radius)
+
+    class Membership:
+        def __init__(self, path_, pts, radius):
+            self.path, self.pts, self.radius = path_, pts, radius
+
+    NPP.atleast_2d = staticmethod(lambda x: x)
+    NPP.where = staticmethod(lambda m: (m,))
+    pathmod = type("pathmod", (), {"Path": PathStub})
+    return dict(geo=geo, affinity=affinity, np=NPP, close_curve=close_curve, explain_validity=lambda g: "invalid", path=pathmod), aff_calls
 
 
 def load_polygon(scenario, mutate=None):
@@ -252,6 +268,26 @@ def run_polygon(mutate=None):
                     check(f"C18.no_alias.result_is_a_new_object[{tag}]", z3.BoolVal(q is not p and q._points is not before))
                     check(f"C18.no_alias.receiver_unchanged[{tag}]", z3.BoolVal(p._points is before and p.name == "orig" and p.mesh is False))
                     check(f"C18.no_alias.name_and_mesh_flag_copied[{tag}]", z3.BoolVal(q.name == "orig" and q.mesh is False))
+        # derived views answer for the CURRENT outline: a membership query after an in-place change consults a path built from the
+        # vertices stored now, also when the same polygon was queried before the change
+        for op in ("translate", "rotate", "scale", "points="):
+            p = Polygon("orig", points="RAW", mesh=False)
+            m0 = p.contains_points("QUERY")
+            sym.check_terms(f"C18.membership.consults_the_stored_outline[before {op}]", bool(hasattr(m0, "path") and m0.path.vertices is p._points and m0.pts == "QUERY"))
+            old = p._points
+            if op == "points=":
+                p.points = "NEW"
+            else:
+                kw = dict(translate=dict(dx=SR(R("dx")), dy=SR(R("dy"))), rotate=dict(degrees=SR(R("deg"))), scale=dict(xfact=SR(R("fx")), yfact=SR(R("fy"))))[op]
+                getattr(p, op)(inplace=True, **kw)
+            m1 = p.contains_points("QUERY")
+            sym.check_terms(f"C18.membership.consults_the_current_outline[after in-place {op}]",
+                            bool(p._points is not old and hasattr(m1, "path") and m1.path.vertices is p._points and m1.path.closed is True))
+            m2 = p.contains_points("QUERY", index=True)
+            sym.check_terms(f"C18.membership.index_form_consults_the_current_outline[after in-place {op}]",
+                            bool(hasattr(m2, "path") and m2.path.vertices is p._points))
+            g_now = p.polygon
+            sym.check_terms(f"C18.derived_shape_is_built_from_the_current_outline[after in-place {op}]", bool(isinstance(g_now, GPolygon) and has(g_now, p._points)))
         # copy and the zero-operand set operations
         p = Polygon("orig", points="RAW", mesh=False)
         for how, q in (("copy", p.copy()), ("union()", p.union()), ("intersection()", p.intersection()), ("difference()", p.difference())):
@@ -383,6 +419,16 @@ def native(seed=0, trials=60):
                 near |= poly.contains_points(pts, radius=1e-6) != poly.contains_points(pts, radius=-1e-6)
             if np.any((got != want) & ~near):
                 bad.append(dict(what=f"{nm} disagrees with point-wise membership", trial=t, n_wrong=int(np.sum((got != want) & ~near))))
+        # a polygon that was queried BEFORE it is transformed in place must answer for its new outline afterwards
+        for nm, do in (("translate", lambda q: q.translate(dx, dy, inplace=True)), ("rotate", lambda q: q.rotate(th, inplace=True)), ("scale", lambda q: q.scale(fx, fy, inplace=True))):
+            q = a.copy()
+            _ = q.contains_points(pts)
+            do(q)
+            fresh = tdgl.Polygon("fresh", points=q.points.copy())
+            n += 1
+            if np.any(q.contains_points(pts) != fresh.contains_points(pts)):
+                bad.append(dict(what=f"membership after in-place {nm} answers for the outline before the change (query, transform in place, query again)", trial=t,
+                                n_points_wrong=int(np.sum(q.contains_points(pts) != fresh.contains_points(pts)))))
         c = a.copy()
         c.translate(dx=1.0, inplace=True)
         z = a.translate(dx=0.0, dy=0.0)
@@ -391,6 +437,17 @@ def native(seed=0, trials=60):
         if np.allclose(c.points, a.points) or a.name != "s" or z is a:
             bad.append(dict(what="copy / zero translate aliases the original", trial=t))
     layer = tdgl.Layer(coherence_length=1, london_lambda=1, thickness=0.1)
+    # a device with probe points, moved out of place: the result must contain its own (moved) probe points
+    for t in range(3):
+        film = tdgl.Polygon("film", points=box(4, 3))
+        hole = tdgl.Polygon("h", points=circle(0.4, center=(0.8, 0.3)))
+        dev = tdgl.Device("d", layer=layer, film=film, holes=[hole], probe_points=[(-1.0, 0.5), (-0.5, -0.8)])
+        sh = rng.uniform(5, 9, 2)
+        moved = dev.translate(dx=float(sh[0]), dy=float(sh[1]))
+        n += 1
+        pp = np.asarray(dev.probe_points) + sh
+        if not np.all(moved.contains_points(pp)) or np.any(moved.contains_points(np.asarray(dev.probe_points))):
+            bad.append(dict(what="a translated device does not contain its own translated probe points / still claims the old ones", shift=sh.tolist()))
     for t in range(10):
         film = tdgl.Polygon("film", points=box(6, 6))
         holes = [tdgl.Polygon(f"h{i}", points=circle(0.5, center=(-1.8 + 1.8 * i, 0.3 * i))) for i in range(int(rng.integers(0, 4)))]
